@@ -412,7 +412,7 @@ type DefaultServerDispatcher struct {
 	readyForDispatch    chan string
 	pendingRequestState ServerState
 	timeout             time.Duration
-	timerC              chan string
+	timerC              chan timeoutToken
 	running             bool
 	stoppedC            chan struct{}
 	onRequestCancel     CanceledRequestHandler
@@ -423,6 +423,12 @@ type DefaultServerDispatcher struct {
 
 // Handler function to be invoked when a request gets canceled (either due to timeout or to other external factors).
 type CanceledRequestHandler func(clientID string, requestID string, request ocpp.Request, err *ocpp.Error)
+
+// timeoutToken tells the message pump that a timeout context of a client expired.
+type timeoutToken struct {
+	clientID string
+	ctx      context.Context // the context that expired; nil stands for the client's current one
+}
 
 // Utility struct for passing a client context around and cancel pending requests.
 type clientTimeoutContext struct {
@@ -450,7 +456,7 @@ func (d *DefaultServerDispatcher) Start() {
 	d.mutex.Lock()
 	defer d.mutex.Unlock()
 	d.requestChannel = make(chan string, 20)
-	d.timerC = make(chan string, 10)
+	d.timerC = make(chan timeoutToken, 10)
 	d.stoppedC = make(chan struct{}, 1)
 	d.running = true
 	go d.messagePump(d.stoppedC, d.timerC)
@@ -536,7 +542,7 @@ func (d *DefaultServerDispatcher) SendRequest(clientID string, req RequestBundle
 // This method is executed by a dedicated coroutine as soon as the server is started and runs indefinitely.
 //
 // stoppedC and timerC are the channels of this session: Start replaces the fields for the next one.
-func (d *DefaultServerDispatcher) messagePump(stoppedC chan struct{}, timerC chan string) {
+func (d *DefaultServerDispatcher) messagePump(stoppedC chan struct{}, timerC chan timeoutToken) {
 	var clientID string
 	var ok bool
 	var rdy bool
@@ -584,14 +590,21 @@ func (d *DefaultServerDispatcher) messagePump(stoppedC chan struct{}, timerC cha
 				// If there is no active context, the client is ready to transmit
 				rdy = !clientCtx.isActive()
 			}
-		case clientID, ok = <-timerC:
+		case token, open := <-timerC:
 			// Timeout elapsed
-			if !ok {
+			if !open {
+				continue
+			}
+			clientID = token.clientID
+			clientCtx = clientContextMap[clientID]
+			if token.ctx != nil && clientCtx.ctx != token.ctx {
+				// The request this timeout belonged to was concluded in the meantime (its reply arrived around the
+				// deadline): the token must not cancel the request that is outstanding for the client now.
+				log.Debugf("stale timeout for client %v, ignoring", clientID)
 				continue
 			}
 			// Canceling timeout context
 			log.Debugf("timeout for client %v, canceling message", clientID)
-			clientCtx = clientContextMap[clientID]
 			if clientCtx.isActive() {
 				clientCtx.cancel()
 				clientContextMap[clientID] = clientTimeoutContext{}
@@ -695,7 +708,7 @@ func (d *DefaultServerDispatcher) waitForTimeout(clientID string, clientCtx clie
 			d.mutex.RLock()
 			defer d.mutex.RUnlock()
 			if d.running {
-				d.timerC <- clientID
+				d.timerC <- timeoutToken{clientID: clientID, ctx: clientCtx.ctx}
 			}
 		} else {
 			log.Debugf("timeout canceled for %s", clientID)
